@@ -302,6 +302,32 @@ def _check_mask_inner(case, ctx):
         lyot = U.rng_of(case['seed'], 7).uniform(0, 1, tuple(shape))
         bab2 = ctx.call(w.babinet, efl, lyot, m1, fpm_dx, method=method)
         U.check_close(np.asarray(bab2.data), lyot * (f - Tc), 0, 'babinet:lyot', 'babinet with a Lyot stop != lyot * (f - T_(1-m) f)', atol=TOL * scale)
+        # the documented argument types "Wavefront or ndarray" for the mask and the Lyot stop, and the longer return form
+        # (field after lyot, field at fpm, field after fpm, field at lyot)
+        form = U.rng_of(case['seed'], 11).integers(0, 4)
+        lyot_c = lyot * np.exp(1j * U.rng_of(case['seed'], 12).uniform(-3, 3, tuple(shape))) if form % 2 else lyot
+        m_arg = P.Wavefront(m1, lam, fpm_dx, 'psf') if form in (1, 2) else m1
+        l_arg = P.Wavefront(lyot_c, lam, dx) if form in (2, 3) else lyot_c
+        ctx.label('babinet:mask-as-' + type(m_arg).__name__, 'babinet:lyot-as-' + type(l_arg).__name__)
+        if isinstance(m_arg, P.Wavefront):
+            more = ctx.call(w.babinet, efl, l_arg, m_arg, method=method, return_more=True)
+        else:
+            more = ctx.call(w.babinet, efl, l_arg, m_arg, fpm_dx, method=method, return_more=True)
+        ctx.require(isinstance(more, (tuple, list)) and len(more) == 4, 'babinet:return_more:arity', 'babinet(return_more=True) did not return four planes')
+        for q in more:
+            ctx.require(isinstance(q, P.Wavefront) and isinstance(q.data, np.ndarray), 'babinet:return_more:type',
+                        'babinet(return_more=True) returned %s holding %s' % (type(q).__name__, type(getattr(q, 'data', None)).__name__))
+        after_lyot, at_fpm, after_fpm, at_lyot = (np.asarray(q.data) for q in more)
+        U.check_close(at_lyot, f - Tc, 0, 'babinet:return_more:at-lyot', 'field at the Lyot plane != f - T_(1-m) f', atol=TOL * scale)
+        U.check_close(after_lyot, lyot_c * (f - Tc), 0, 'babinet:return_more:after-lyot', 'field after the Lyot stop != lyot * (f - T_(1-m) f)', atol=TOL * scale)
+        U.check_shape(at_fpm, m1.shape, 'babinet:return_more:at-fpm')
+        U.check_close(after_fpm, at_fpm * (1 - m1f), 0, 'babinet:return_more:after-fpm', 'field after the mask != field at the mask * (1 - fpm)',
+                      atol=TOL * max(float(np.abs(at_fpm).max()) * max(1.0, float(np.abs(1 - m1f).max())), 1e-300))
+        ctx.require(more[0].dx == dx and more[3].dx == dx and more[1].dx == fpm_dx and more[2].dx == fpm_dx, 'babinet:return_more:metadata',
+                    'spacings of the four returned planes: %r' % ([q.dx for q in more],))
+        plain = ctx.call(w.babinet, efl, l_arg, m_arg, None if isinstance(m_arg, P.Wavefront) else fpm_dx, method=method)
+        ctx.require(isinstance(plain.data, np.ndarray), 'babinet:type', 'babinet returned a Wavefront holding %s' % type(plain.data).__name__)
+        U.check_close(np.asarray(plain.data), after_lyot, 0, 'babinet:return_more:first', 'first plane of return_more=True != the plain result', atol=TOL * scale)
 
 
 def strat_identity(tier):
